@@ -172,3 +172,6 @@ pub enum Instruction {
         ty: TyRef,
     },
 }
+
+#[cfg(feature = "verif-hooks")]
+pub use lower::verif_lower_to_mir_without_dce;
